@@ -113,6 +113,7 @@ SURFACE = {
     'clip': [['clip', 0, 5000]], 'fill_none': [['fill_none', 5]], 'flat': [['map', 'dup'], ['flat_map']], 'progress': [['progress', 2]],
     'assert': [['assert', 'true']], 'two': [['scan', 'add', '0'], ['last']],
 }
+BASE_DOWN = list(DOWN)          # the operators placed behind a HANDLER (every handler, every failing subset)
 DOWN.update(SURFACE)
 # the streaming statistics emit one value per item: behind them only the count is compared (C12 owns the values)
 MODEL_AS = {'variance': [['count']], 'fstddev': [['count']]}
@@ -142,7 +143,7 @@ def units(tier):
     out = []
     for o in OPS:
         for h in HANDLERS:
-            for d in (DOWN if tier != 'quick' else ['scan', 'count', 'last', 'to_list']):
+            for d in (BASE_DOWN if tier != 'quick' else ['scan', 'count', 'last', 'to_list']):
                 out.append({'fam': 'api', 'op': o, 'handler': h, 'down': d, 'L': L})
     for o in ('map', 'filter') if tier == 'quick' else OPS:
         for d in SURFACE:
